@@ -16,6 +16,7 @@ import (
 	"time"
 
 	"ergo.services/ergo/gen"
+	"ergo.services/ergo/lib"
 	"ergo.services/ergo/node"
 
 	"verif/harness/gated"
@@ -59,10 +60,22 @@ func StartNode(name string) (gen.Node, gen.TargetManager, error) {
 	opt.Log.DefaultLogger.Disable = true
 	opt.Log.Level = gen.LogLevelDisabled
 	opt.Network.Mode = gen.NetworkModeDisabled
-	tm := gen.CreateDefaultTargetManager()
+	tm := &notingTM{TargetManager: gen.CreateDefaultTargetManager()}
 	opt.TargetManager = tm
 	n, err := node.Start(gen.Atom(name), opt, gen.Version{})
 	return n, tm, err
+}
+
+// notingTM adds one yield point to the target manager: after a target has been drained and before the node sends the
+// notifications (the terminator can be parked between the two).
+type notingTM struct {
+	gen.TargetManager
+}
+
+func (t *notingTM) CleanupTarget(target any) ([]gen.PID, []gen.PID) {
+	l, m := t.TargetManager.CleanupTarget(target)
+	lib.VerifPoint("tm.drained", target)
+	return l, m
 }
 
 func resName(err error) string {
@@ -255,6 +268,7 @@ func (r *Runner) RunPlan(scn *Scenario, plan *replay.Plan) error {
 	active := map[string]bool{"link.check": true, "link.add": true, "link.recheck": true, "unlink.check": true, "unlink.remove": true}
 	active[scn.TDel] = true
 	active[scn.TDrain] = true
+	active["tm.drained"] = true
 	cfg := vsched.Config{
 		Active:      active,
 		Watched:     watched,
